@@ -456,6 +456,84 @@ Lemma firstn_skipn_mid {A} (pre mid post : list A) n m :
   length pre = n -> length mid = m -> firstn m (skipn n (pre ++ mid ++ post)) = mid.
 Proof. intros <- <-. rewrite skipn_exact. apply firstn_exact. Qed.
 
+(* ---------------- prettyprint_unix as repaired (F14) ---------------- *)
+(* the path a Unix name denotes: the bytes of the sun_path region up to its first NUL, or all of
+   them when there is none *)
+Fixpoint until_nul (l : list N) : list N :=
+  match l with
+  | [] => []
+  | c :: r => if c =? 0 then [] else c :: until_nul r
+  end.
+
+Lemma until_nul_length l : (length (until_nul l) <= length l)%nat.
+Proof. induction l as [|c r IH]; [apply Nat.le_refl|]. cbn [until_nul]. destruct (c =? 0); cbn [length]; lia. Qed.
+
+Lemma until_nul_prefix l : firstn (length (until_nul l)) l = until_nul l.
+Proof.
+  induction l as [|c r IH]; [reflexivity|]. cbn [until_nul]. destruct (c =? 0); [reflexivity|].
+  cbn [length firstn]. rewrite IH. reflexivity.
+Qed.
+
+Lemma until_nul_no_nul l : no_nul (until_nul l).
+Proof.
+  induction l as [|c r IH]; [constructor|]. cbn [until_nul].
+  destruct (N.eqb_spec c 0); [constructor | constructor; assumption].
+Qed.
+
+Lemma until_nul_app s rest : no_nul s -> until_nul (s ++ 0 :: rest) = s.
+Proof.
+  intros H. induction H as [|c r Hc Hr IH]; [reflexivity|]. cbn [app until_nul].
+  destruct (N.eqb_spec c 0); [contradiction|]. rewrite IH. reflexivity.
+Qed.
+
+Lemma skipn_nth_cons (s : list N) i : (i < length s)%nat -> skipn i s = nth i s 0 :: skipn (S i) s.
+Proof.
+  revert i. induction s as [|x r IH]; intros [|k] H; cbn [length] in H; try lia; [reflexivity|].
+  cbn [skipn nth]. apply IH. lia.
+Qed.
+
+(* memchr over the whole rest of the object: never a Fault, finds the end of until_nul *)
+Lemma memchr0_until s off : forall n i, (off + i + n = length s)%nat ->
+  exists e, memchr0_from s off i n = Ok e /\
+    ((match e with Some k => k | None => (i + n)%nat end)
+             = (i + length (until_nul (skipn (off + i) s)))%nat).
+Proof.
+  induction n as [|n IH]; intros i H.
+  - exists None. split; [reflexivity|]. rewrite skipn_all2 by lia. reflexivity.
+  - cbn [memchr0_from]. rewrite rd_nth by lia. cbn [bind].
+    rewrite (skipn_nth_cons s (off + i)) by lia. cbn [until_nul].
+    destruct (nth (off + i) s 0 =? 0).
+    + exists (Some i). split; [reflexivity|]. cbn [length]. lia.
+    + destruct (IH (S i)) as [e [R V]]; [lia|]. exists e. split; [exact R|].
+      replace (S (off + i)) with (off + S i)%nat by lia. cbn [length].
+      destruct e as [k|]; lia.
+Qed.
+
+Lemma skipn_alloc_last n fill : skipn n (alloc (S n) fill) = [fill].
+Proof.
+  unfold alloc. induction n as [|n IH]; [reflexivity|]. cbn [repeat skipn] in *. exact IH.
+Qed.
+
+(* the repaired routine on EVERY address: NULL when the name does not reach sun_path, otherwise
+   exactly the path the name denotes; no Fault whatever the name bytes and length are *)
+Theorem prettyprint_unix_exact sa :
+  prettyprint_unix_m sa =
+  Ok (if (length (sa_name sa) <? N.to_nat off_sun_path)%nat then None
+      else Some (until_nul (skipn (N.to_nat off_sun_path) (sa_name sa)))).
+Proof.
+  unfold prettyprint_unix_m. set (off := N.to_nat off_sun_path). set (name := sa_name sa).
+  destruct (Nat.ltb_spec (length name) off) as [Hs|Hs]; [reflexivity|]. cbv zeta.
+  destruct (memchr0_until name off (length name - off) 0) as [e [R V]]; [lia|].
+  rewrite R. cbn [bind]. cbn [Nat.add] in V. rewrite Nat.add_0_r in V. rewrite V.
+  set (U := until_nul (skipn off name)).
+  assert (HU : (length U <= length name - off)%nat).
+  { unfold U. pose proof (until_nul_length (skipn off name)) as Q. rewrite skipn_length in Q. exact Q. }
+  rewrite memcpy_ok by (rewrite ?alloc_length; lia). cbn [bind firstn app Nat.add].
+  assert (PU : firstn (length U) (skipn off name) = U) by apply until_nul_prefix.
+  rewrite PU, skipn_alloc_last.
+  rewrite wr_mid. cbn [bind]. rewrite firstn_exact. reflexivity.
+Qed.
+
 Section RoundTrip.
   Variable pton6 : list N -> option (list N).
   Variable ntop6 : list N -> list N.
@@ -507,9 +585,57 @@ Section RoundTrip.
     intros Hn Hl. unfold sock_addr_prettyprint_m, sa_unix. cbn [sa_family sa_name].
     change (af_unix =? af_inet) with false. change (af_unix =? af_inet6) with false.
     change (af_unix =? af_unix) with true. cbv iota.
+    rewrite prettyprint_unix_exact. cbn [sa_name].
     unfold sockaddr_un_of. change (N.to_nat off_sun_path) with (length (native_bytes n_family af_unix)).
+    rewrite !app_length, repeat_length.
+    replace (length (native_bytes n_family af_unix) + (length path + (n_sun_path - length path)) <?
+             length (native_bytes n_family af_unix))%nat with false by (symmetry; apply Nat.ltb_ge; lia).
+    rewrite skipn_exact.
     replace (n_sun_path - length path)%nat with (S (n_sun_path - length path - 1)) by lia. cbn [repeat].
-    rewrite cstr_at_ok by exact Hn. reflexivity.
+    rewrite until_nul_app by exact Hn. reflexivity.
+  Qed.
+
+  (* C15: the printer on EVERY address value - any family, any name bytes, any name length (so in
+     particular on whatever sock_addr_deserialize accepted): never a Fault.  For AF_UNIX the result
+     is NULL when the name does not reach sun_path and otherwise the bytes of the sun_path region up
+     to its first NUL or its end; it contains no NUL and lies inside the name. *)
+  Theorem sock_addr_prettyprint_no_fault sa :
+    exists r, sock_addr_prettyprint_m ntop6 sa = Ok r /\
+    (sa_family sa = af_unix ->
+               r = if (length (sa_name sa) <? N.to_nat off_sun_path)%nat then None
+                   else Some (until_nul (skipn (N.to_nat off_sun_path) (sa_name sa)))).
+  Proof. clear pton6_len pton6_ntop6 ntop6_shape.
+    unfold sock_addr_prettyprint_m.
+    destruct (N.eqb_spec (sa_family sa) af_inet) as [E4|N4].
+    { unfold prettyprint_inet.
+      destruct (Nat.eqb_spec (length (sa_name sa)) n_sin) as [L|L]; cbn [negb].
+      - rewrite <- L. rewrite memcpy_whole. cbn [bind]. rewrite fmt_pp4. cbn [bind].
+        eexists. split; [reflexivity|]. intros F. rewrite F in E4. discriminate.
+      - eexists. split; [reflexivity|]. intros F. rewrite F in E4. discriminate. }
+    destruct (N.eqb_spec (sa_family sa) af_inet6) as [E6|N6].
+    { unfold prettyprint_inet.
+      destruct (Nat.eqb_spec (length (sa_name sa)) n_sin6) as [L|L]; cbn [negb].
+      - rewrite <- L. rewrite memcpy_whole. cbn [bind]. rewrite fmt_pp6. cbn [bind].
+        eexists. split; [reflexivity|]. intros F. rewrite F in E6. discriminate.
+      - eexists. split; [reflexivity|]. intros F. rewrite F in E6. discriminate. }
+    destruct (N.eqb_spec (sa_family sa) af_unix) as [Eu|Nu].
+    - rewrite prettyprint_unix_exact. eexists. split; [reflexivity|]. intros _. reflexivity.
+    - eexists. split; [reflexivity|]. intros F. contradiction.
+  Qed.
+
+  (* ... and composed with the decoder: whatever bytes arrive, decoding and then printing stays
+     inside the buffer and inside the decoded name *)
+  Theorem deserialize_then_prettyprint_no_fault buf :
+    bytes_ok buf ->
+    exists r, bind (sock_addr_deserialize_m buf)
+                   (fun o => match o with
+                             | None => Ok None
+                             | Some sa => sock_addr_prettyprint_m ntop6 sa
+                             end) = Ok r.
+  Proof. clear pton6_len pton6_ntop6 ntop6_shape.
+    intros Hb. destruct (sock_addr_deserialize_no_fault buf Hb) as [o [E _]]. rewrite E. cbn [bind].
+    destruct o as [sa|]; [|eexists; reflexivity].
+    destruct (sock_addr_prettyprint_no_fault sa) as [r [P _]]. exists r. exact P.
   Qed.
 
   (* the bracket / last-colon glue on a printed address *)
@@ -663,6 +789,20 @@ Example resolve_example_fail :      (* "[1.2.3.4]:0", "[", "[]:80" *)
 Proof. repeat split; vm_compute; reflexivity. Qed.
 Example resolve_example_unterminated : sock_resolve_x [91; 58] = Fault.
 Proof. vm_compute. reflexivity. Qed.
+(* regression for finding F14: the 18-byte serialised address (family AF_UNIX, type 1, namelen 6,
+   name = family + "/bcd" without terminator) is accepted by the decoder; the printer as it was
+   before the repair (strdup of sun_path, namelen ignored) leaves the 6-byte name block; the
+   repaired one prints "/bcd".  Likewise a name that stops before sun_path. *)
+Example prettyprint_unix_regression_F14 :
+  let buf := [1; 0; 0; 0; 1; 0; 0; 0; 6; 0; 0; 0; 1; 0; 47; 98; 99; 100] in
+  let sa := mk_sa 1 1 [1; 0; 47; 98; 99; 100] in
+  sock_addr_deserialize_m buf = Ok (Some sa) /\
+    prettyprint_unix_old_m sa = Fault /\
+    sock_addr_prettyprint_x sa = Ok (Some [47; 98; 99; 100]) /\
+    prettyprint_unix_old_m (mk_sa 1 1 [1; 0]) = Fault /\
+    sock_addr_prettyprint_x (mk_sa 1 1 [1; 0]) = Ok (Some []) /\
+    sock_addr_prettyprint_x (mk_sa 1 1 [1]) = Ok None.
+Proof. vm_compute. repeat split; reflexivity. Qed.
 Example deserialize_example_short :
   sock_addr_deserialize_m [2; 0; 0; 0; 1; 0; 0; 0; 16; 0; 0; 0; 2; 0] = Ok None.
 Proof. vm_compute. reflexivity. Qed.
